@@ -545,7 +545,21 @@ impl<'t, 'a> Gen<'t, 'a> {
                 let k = ks[self.t.pick(ks.len())];
                 let methods = self.effective_methods(k);
                 let recv = self.construct(k, 1);
-                let (name, e): (&str, E) = match self.t.pick(4) {
+                let (name, e): (&str, E) = match self.t.pick(6) {
+                    // a built-in reached through the parent chain, called explicitly with one
+                    // argument too many / none at all: the chain does not waive the arity
+                    4 if matches!(self.chain_end(k), Parent::Int) && !methods.iter().any(|(m, _)| m.name == "+") => {
+                        ("builtin-via-parent-arity-plus", E::MCall(bx(recv), "+".into(), vec![E::Int(100), E::Int(2)]))
+                    }
+                    4 if matches!(self.chain_end(k), Parent::Bool) && !methods.iter().any(|(m, _)| m.name == "&") => {
+                        ("builtin-via-parent-arity-plus", E::MCall(bx(recv), "&".into(), vec![E::Bool(true), E::Bool(true)]))
+                    }
+                    5 if matches!(self.chain_end(k), Parent::Int) && !methods.iter().any(|(m, _)| m.name == "-") => {
+                        ("builtin-via-parent-arity-minus", E::MCall(bx(recv), "-".into(), vec![]))
+                    }
+                    5 if matches!(self.chain_end(k), Parent::Arr(..)) && !methods.iter().any(|(m, _)| m.name == "get") => {
+                        ("builtin-via-parent-arity-plus", E::MCall(bx(recv), "get".into(), vec![E::Int(0), E::Int(0)]))
+                    }
                     0 if !methods.is_empty() => {
                         let (m, _) = methods[self.t.pick(methods.len())].clone();
                         let mut args: Vec<E> = m.params.iter().map(|p| self.leaf(p)).collect();
@@ -568,8 +582,23 @@ impl<'t, 'a> Gen<'t, 'a> {
                 return Some(e);
             }
         }
-        let kinds = 16;
+        let kinds = 19;
         let (name, e): (&str, E) = match self.t.pick(kinds) {
+            // a name that WAS declared, in a block that has ended since (all inside one more
+            // block, so that the use is not at the outermost level either): read and written
+            16 => {
+                let n = self.unique("gone");
+                ("out-of-scope-read", E::Block(vec![E::Block(vec![let_(&n, E::Int(7)), var(&n)]), var(&n)]))
+            }
+            17 => {
+                let n = self.unique("gone");
+                ("out-of-scope-write", E::Block(vec![E::Block(vec![let_(&n, E::Int(7))]), E::Assign(n, bx(E::Int(8)))]))
+            }
+            18 => {
+                // declared in one branch of a conditional that has ended, used after it
+                let n = self.unique("gone");
+                ("out-of-scope-read-after-if", E::Block(vec![E::If(bx(E::Bool(true)), bx(E::Block(vec![let_(&n, E::Int(7)), E::Null])), Some(bx(E::Null))), var(&n)]))
+            }
             0 => ("unknown-variable", E::Var(self.unique("nope"))),
             1 => ("unknown-function", E::Call(self.unique("nofun"), vec![E::Int(1)])),
             2 => ("unknown-method-int", mcall(E::Int(1), "nometh", vec![E::Int(2)])),
